@@ -9,14 +9,18 @@
               for a child of P (a child's timestamp is >= P's);
        FALSE  if nothing on the ancestor chain of P shares a payload with Q (other forks do not count).
    Payload classes, sub-transactions and expirations are those of the real signed transactions (logged at reset).
+   Carriers: every block is saved with its transactions in one carrier encoding (4th argument of SaveBlock: how the JSON
+   payload of a box - the redundant "hash" member, gasUsed, unknown members, member order, white space - is written) and
+   every question is asked in every carrier encoding of the behaviour (field e of an answer).  The demanded answer does
+   not mention either: the identity under which the guard files a transaction is a function of its signed content only.
 
-   Layer 2 (adapter replayprot) is judged by the second half of this module.
+   Layer 2 (adapter replayprot) is judged by TraceTxGuardChain.tla.
 
    Deviations of the code listed in known_findings.txt (AllowedDev) are accepted only where the correct outcome does
    not match and exactly in the listed form; they are reported through UseDev. *)
 EXTENDS TraceBase
 CONSTANT AllowedDev
-VARIABLES exp, subs, payload, qs,   \* universe of the behaviour (from the real transactions)
+VARIABLES exp, subs, payload, qs,   \* universe of the behaviour (from the real transactions); qs = <<queries, carrier encodings>>
           blocks, stable, dead      \* layer 1: tree of saved blocks [parent, time, txs], stable block, blocks lost by a restart
 tvars == <<exp, subs, payload, qs, blocks, stable, dead, l>>
 Life == 1800
@@ -31,28 +35,39 @@ Legal(x, tm) == \A y \in Closure(x) : tm <= exp[y] /\ exp[y] <= tm + Life
 CouldCarry(bl, P, q) == \A y \in Closure(q) : bl[P].time <= exp[y]
 MustTrue(bl, P, Q, C(_, _)) == \E X \in AncIn(bl, P) : \E x \in bl[X].txs : \E q \in Q : C(x, q) /\ CouldCarry(bl, P, q)
 MustFalse(bl, P, Q) == ~ \E X \in AncIn(bl, P) : \E x \in bl[X].txs : \E q \in Q : Conflict(x, q)
-EntryOK(bl, e) == LET Q == ToSet(e.q) IN (MustTrue(bl, e.p, Q, Conflict) => e.r) /\ (MustFalse(bl, e.p, Q) => ~e.r)
-\* Dev_TxMalleableEncoding: FALSE although the payload is on the chain, and no transaction with the same HASH is
-EntryMalleable(bl, e) == LET Q == ToSet(e.q) IN ~e.r /\ MustTrue(bl, e.p, Q, Conflict) /\ ~MustTrue(bl, e.p, Q, ConflictH)
+\* The log holds one row per (live block p, carrier encoding e): r[k] = ExistTxs(p, query k written in e).  The demanded answer to
+\* (p, query k) is computed once - it does not depend on e - and every row must agree with it.
 TableOK(bl, st, dd) ==     \* the answers logged with the current line, judged in the tree bl / stable st / lost dd
   LET live == LiveIn(bl, st, dd)
-      n == Len(E.ans) IN
+      n == Len(E.ans)
+      K == Len(qs[1])
+      \* rows of block p whose answer to query k is not the demanded one
+      Wrong(p, k) == LET Q == ToSet(qs[1][k])
+                         mt == MustTrue(bl, p, Q, Conflict)
+                         mf == MustFalse(bl, p, Q) IN
+                     {i \in 1..n : E.ans[i].p = p /\ ~((mt => E.ans[i].r[k]) /\ (mf => ~E.ans[i].r[k]))}
+      \* Dev_TxMalleableEncoding: FALSE although the payload is on the chain, and no transaction with the same HASH is
+      Malleable(p, k) == LET Q == ToSet(qs[1][k]) IN
+                         /\ MustTrue(bl, p, Q, Conflict) /\ ~MustTrue(bl, p, Q, ConflictH)
+                         /\ \A i \in Wrong(p, k) : ~E.ans[i].r[k] IN
   /\ ToSet(E.live) = live
-  /\ {<<E.ans[i].p, E.ans[i].q>> : i \in 1..n} = live \X ToSet(qs)          \* every live block was asked every query
-  /\ \A i \in 1..n : \/ EntryOK(bl, E.ans[i])
-                     \/ "Dev_TxMalleableEncoding" \in AllowedDev /\ EntryMalleable(bl, E.ans[i])
-  /\ (\E i \in 1..n : ~EntryOK(bl, E.ans[i])) => UseDev("Dev_TxMalleableEncoding")
+  /\ {<<E.ans[i].p, E.ans[i].e>> : i \in 1..n} = live \X ToSet(qs[2]) /\ n = Cardinality(live) * Len(qs[2])   \* every live block, every carrier encoding
+  /\ \A i \in 1..n : Len(E.ans[i].r) = K                                                                  \* every query
+  /\ \A p \in live : \A k \in 1..K :
+        \/ Wrong(p, k) = {}
+        \/ "Dev_TxMalleableEncoding" \in AllowedDev /\ Malleable(p, k) /\ UseDev("Dev_TxMalleableEncoding")
 Fun(o) == [k \in DOMAIN o |-> o[k]]
 TReset == /\ Ev("reset")
           /\ E.life = Life
-          /\ exp' = Fun(E.exp) /\ subs' = Fun(E.subs) /\ payload' = Fun(E.payload) /\ qs' = E.queries
+          /\ exp' = Fun(E.exp) /\ subs' = Fun(E.subs) /\ payload' = Fun(E.payload) /\ qs' = <<E.queries, E.encs>>
           /\ blocks' = <<[parent |-> 0, time |-> E.root_time, txs |-> {}]>> /\ stable' = 1 /\ dead' = {}
           /\ ToSet(E.live) = {1}                                                   \* the root carries nothing: every answer is FALSE
-          /\ {<<E.ans[i].p, E.ans[i].q>> : i \in 1..Len(E.ans)} = {1} \X ToSet(E.queries)
-          /\ \A i \in 1..Len(E.ans) : ~E.ans[i].r
+          /\ {<<E.ans[i].p, E.ans[i].e>> : i \in 1..Len(E.ans)} = {1} \X ToSet(E.encs) /\ Len(E.ans) = Len(E.encs)
+          /\ \A i \in 1..Len(E.ans) : Len(E.ans[i].r) = Len(E.queries) /\ \A k \in 1..Len(E.queries) : ~E.ans[i].r[k]
 TSave == /\ Ev("SaveBlock")
          /\ LET p == E.a[1]  tm == E.a[2]  txs == ToSet(E.a[3]) IN
             /\ p \in LiveIn(blocks, stable, dead) /\ tm >= blocks[p].time /\ \A x \in txs : Legal(x, tm)   \* well-formed input
+            /\ E.a[4] \in ToSet(qs[2])                                                                    \* the carrier encoding of the block: no demand depends on it
             /\ E.id = Len(blocks) + 1
             /\ blocks' = Append(blocks, [parent |-> p, time |-> tm, txs |-> txs])
          /\ UNCHANGED <<exp, subs, payload, qs, stable, dead>>
